@@ -203,6 +203,23 @@ def generate(tier, seed, ctx):
             r = parse_tree_record(rng, case, cell, name, prune=True)
             if r:
                 out.append(r)
+    # HashmapAugE: the dictionary root hangs off a HOLDER cell (ahme_root$1 root:^... extra:Y).  When a proof prunes the holder itself
+    # nothing at all is known about the dictionary: whatever the entry point hands back, it is not "a dictionary" (let alone an empty one)
+    augs = [c for _, c in cases if c['aug']]
+    for case in rng.sample(augs, min(len(augs), 12 if q else 200)):
+        w, xw = case['w'], case['xw']
+        root = hk.tree_to_cell(case['tree'])
+        holder = Builder().store_bit(1).store_ref(root).store_bits(bitarray([1, 0, 1, 1, 0, 1, 0, 0, 1][:xw])).end_cell()
+        y = bytes([1, 1]) + holder.hash + holder.get_depth(0).to_bytes(2, 'big')
+        pb = Builder(type_=1)
+        pb.store_bytes(y)
+        rec = {'op': 'aug_e_holder_pruned', 'w': w, 'xw': xw}
+        try:
+            res = pb.end_cell().begin_parse().load_hashmap_aug_e(w, lambda sl: sl.load_bits(len(sl.bits)), lambda sl: sl.load_bits(xw))
+            rec['out'] = {'kind': 'dictionary' if isinstance(res, (tuple, dict)) else type(res).__name__}
+        except Exception as e:
+            rec['out'] = {'kind': 'error'}
+        out.append(rec)
     # random wide canonical maps
     for rep in range(2 if q else 30):
         for w in (8, 32, 64, 256, 267, 600):
@@ -231,6 +248,8 @@ def nontrivial_key(r):
     if r['op'] in ('hmcall', 'reset'):
         c = r.get('call')
         return None if c is None or c['op'] not in ('ser', 'parse') else ('hm', repr(r['post']), c['op'], c.get('via'))
+    if r['op'] == 'aug_e_holder_pruned':
+        return None
     if r['op'] == 'kinds':
         return ('kinds', r['m'])
     if r['op'] == 'parse_tree':
